@@ -11,7 +11,7 @@ CORE_TXT = {
  'C07': ('C07_ContentAddressed is an invariant of every model state incl. crash states; on the implementation the projection recomputes each cache file name from its bytes with an independent SHA-256 at every return and at every crash snapshot', '7/C07'),
  'C08': ('C08_NothingLost in every model state; implementation: every return and every crash snapshot (after each mutating System call, one torn prefix per write) of random and model-generated histories; overwrites by ruler itself are logged by the instrumented System', '7/C08'),
  'C09': ('frame condition C09_OnlyScopeTouched model-checked for every goal choice; implementation: content, stamp and mode of every out-of-scope path compared across each invocation, plus the list of paths ruler itself mutated', '7/C09'),
- 'C10': ('clean / build goal pairs model-checked incl. equal contents and executable outputs; implementation traces validated: C10_CleanMovesToCache, C10_BuildBringsBack; in-memory file system only (see level_note)', '7/C10'),
+ 'C10': ('clean / build goal pairs model-checked incl. equal contents and executable outputs; implementation traces validated: C10_CleanMovesToCache, C10_BuildBringsBack; plus clean/build round trips of the real binary with shell commands on the real file system judged by RealFs.tla', '7/C10'),
  'C11': ('crash action enabled between all steps in the model; implementation: snapshot after every mutating call of the interrupted invocation of random and model-generated histories, recovery build from each, validated by TLC (C11_CrashStateSane, C11_Recovers, C07, C08 at the crash instant)', '7/C11'),
  'C17': ('rules with an undeclared input on every subset of a 2-target rule model-checked; implementation traces with env changes validated: C17_ContradictionReported (exact paths, both directions) and C17_HistoryKept', '7/C17'),
  'C18': ('tick-clock model checked with the auxiliary invariants (table truth, sent-hash truth); the counterexample of the pre-repair model (D4) and random histories are run twice in the implementation (with and without the table) and TLC compares verdict and contents (C18_Twin) under both clock models', '7/C18'),
@@ -21,6 +21,7 @@ SAT_TXT = {
  'C12': ('the DFS of sort.rs transcribed in TLA+ is model-checked against the declarative oracle for every graph on <=4 (5) rules x every goal; the real topological_sort[_all] is run on every graph on 3 (4) rules, multi-target and random larger graphs incl. duplicates / self-loops / cycles, each in two input orders, and TLC judges every (input, output) record with the oracle (Sort.tla); plus end-to-end: invalid graphs are rejected by build/clean', '7/C12'),
  'C13': ('TLC: the byte string hashed for a rule is an injective function of (target set, source set, command sequence) over a universe of parser-producible strings; real get_ticket equality on pairs incl. near-misses judged by TLC against Canon equality (Identity.tla)', '7/C13'),
  'C14': ('every line sequence of length <=5 (6) over a 7-letter line alphabet, rendered random rule files with nested bundles, single-edit corruptions and token soup are parsed by the real rule::parse; TLC judges each record with the declarative grammar (RulesGrammar.tla): accept/reject, sets and command lines, error kind and line, invariance under permuting sibling lines', '7/C14'),
+ 'C19': ('ruler directories are produced by the real binary with shell commands on the real file system, `ruler serve` is started on the loopback interface and asked for every cached hash, every recorded (rule, sources) pair, absent well-formed names and hostile names (wrong length, foreign characters, overflow, encoded ../, extra segments); TLC judges every (request class, answer) record with Server.tla: 200 + exact bytes exactly for what is held, 404 otherwise, server still answering', '7/C19'),
  'C16': ('state files written by ruler itself, every strict prefix / bit flip of small ones, junk and appended bytes are read back by the real readers; TLC judges (damage class, outcome) with Persist.tla; end-to-end: damaged table / history make build return the matching error (C16_DamagedRejected) and every validated trace compares the decoded files with the model state', '7/C16'),
 }
 checks = []
@@ -35,7 +36,7 @@ for pid in sorted(list(CORE_TXT) + list(SAT_TXT)):
         'engine': 'tlc+rvh',
         'level_claimed': {'category': 'model_checking', 'text': txt, 'design_ref': ref},
         'level_note': ('bounded: small constants in the model, finite sets of recorded executions; trusted: TLC, the harness (instrumented System, scheduler shim, projection with its own SHA-256 / bincode reader), the harness command language standing in for user commands' +
-                       ('; the real file system with shell commands is not exercised by this check' if pid == 'C10' else '')),
+                       ('; the real file system part uses one fixed 4-rule graph with sh commands (RealFs.tla)' if pid == 'C10' else '')),
         'technique': 'TLA+ specification model-checked with TLC; implementation traces (random, TLC-generated behaviours replayed under a deterministic scheduler, crash snapshots) validated by TLC against the specification with the property as invariant' if pid in CORE_TXT else 'TLA+ oracle specification; TLC model checking of the transcribed algorithm / encoding; TLC judges (input, output) records of the real code',
     })
 m = {
@@ -47,7 +48,7 @@ m = {
  'checks': checks,
  'not_applicable': [
    {'property_id': 'C15', 'reason': 'numeric / encode-decode fidelity of two pure functions (SHA-256, base-62 on 256-bit values): outside what a TLA+ specification bound to the code can decide (TLC has 32-bit integers, the specification abstracts hashes to identity); see DESIGN.md section 8'},
-   {'property_id': 'C19', 'reason': 'not claimed yet: the server specification and the real-file-system / HTTP driver are not built (DESIGN.md section 7/C19)'}],
+   ],
  'notes': 'All checks rebuild the harness from /repo/src. exit 2 = tool error. DIVERGENCE lines report executions that the strict trace validator rejects while no property predicate fails (not a violation).',
 }
 json.dump(m, open('/verif/MANIFEST.json', 'w'), indent=1)
